@@ -19,6 +19,7 @@ import (
 	"math/big"
 	"math/rand"
 	"sort"
+	"strings"
 	"unicode/utf16"
 
 	"github.com/btcsuite/btcd/btcec/v2"
@@ -32,6 +33,21 @@ type keyPair struct {
 	ec    *ecdsa.PrivateKey
 	ed    ed25519.PrivateKey
 	nonce string
+	spare bool // coordinates spelled with the spare trailing bits of base64url set (same octets, another text)
+}
+
+// spareSpelled: the last character replaced by the one that carries the same data bits with a spare
+// bit set (only texts whose length leaves spare bits: 32-octet values, not 48 or 66)
+func spareSpelled(s string) string {
+	const alphabet = "ABCDEFGHIJKLMNOPQRSTUVWXYZabcdefghijklmnopqrstuvwxyz0123456789-_"
+	if len(s)%4 == 0 || len(s) == 0 {
+		return s
+	}
+	i := strings.IndexByte(alphabet, s[len(s)-1])
+	if i < 0 {
+		return s
+	}
+	return s[:len(s)-1] + string(alphabet[i|1])
 }
 
 type rngReader struct{ r *rand.Rand }
@@ -107,6 +123,12 @@ func (k *keyPair) jwk() map[string]interface{} {
 		m["crv"] = k.kind
 		m["x"] = b64(fixedWidth(k.ec.X, w))
 		m["y"] = b64(fixedWidth(k.ec.Y, w))
+	}
+	if k.spare {
+		m["x"] = spareSpelled(m["x"].(string))
+		if y, _ := m["y"].(string); y != "" {
+			m["y"] = spareSpelled(y)
+		}
 	}
 	if k.nonce != "" {
 		m["nonce"] = k.nonce
